@@ -152,15 +152,27 @@ Definition holds_valid (i o : val) : bool :=
    explicit GC at [now] no occupied slot holds an entry with exp <= now *)
 Definition slot_expired (now : Z) (s : val) : bool :=
   match s with VL [_; VZ e] => (e <=? now)%Z | _ => false end.
+(* the specification state before every operation (for "a Put whose collection is due") *)
+Fixpoint vs_states (s : vspec) (ops : list vop) : list vspec :=
+  match ops with [] => [] | op :: rest => s :: vs_states (fst (vs_step s op)) rest end.
+Definition put_collects (s : vspec) (now : Z) : bool :=
+  let lastgc := match vs_lastgc s with Some l => l | None => now end in
+  (0 <? vs_gci s)%Z && (vs_gci s <=? now - lastgc)%Z.
+
 Definition holds_valid_slots (i o : val) : bool :=
-  forallb (fun p : val * val =>
-             let (op, r) := p in
+  let ops := as_l (nth_val 3 i) in
+  let specs := vs_states (vs_new (as_z (nth_val 0 i)) (as_bool (nth_val 1 i)) (as_opt as_z (nth_val 2 i))) (map dec_vop ops) in
+  forallb (fun p : (val * vspec) * val =>
+             let '((op, s), r) := p in
              let st := nth_val 1 r in
+             let now := as_z (nth_val 1 op) in
              (occupied st =? as_nat (nth_val 2 st))%nat &&
-             (if as_n (nth_val 0 op) =? 2
-              then negb (existsb (slot_expired (as_z (nth_val 1 op))) (as_l (nth_val 3 st)))
+             (* right after an explicit collection, and right after a Put whose collection is due (GCInterval has
+                passed since the last one / since the first Put), no occupied slot holds an expired entry *)
+             (if (as_n (nth_val 0 op) =? 2) || ((as_n (nth_val 0 op) =? 0) && negb (val_eqb (nth_val 4 op) (VL [])) && put_collects s now)
+              then negb (existsb (slot_expired now) (as_l (nth_val 3 st)))
               else true))
-          (combine (as_l (nth_val 3 i)) (as_l (nth_val 1 o))).
+          (combine (combine ops specs) (as_l (nth_val 1 o))).
 
 (* ---- family "message" (C02 C15 C19, C14's UnmarshalText route) -------------- *)
 From GoSse Require Import FieldParser Message Whatwg.
